@@ -383,7 +383,8 @@ def corr_closure(ctx, gen):
 def witnesses(ctx):
     """the Lean witnesses of the unsound key kinds, replayed on the implementation as fixed two-step
     histories (pool object vs fresh object)"""
-    for grp in (_w_legendre, _w_global, _w_hash, _w_solvers, _w_twins, _w_constructors):
+    for grp in (_w_legendre, _w_global, _w_hash, _w_solvers, _w_twins, _w_constructors, _w_shared_mapping,
+                _w_repeat):
         try:
             grp(ctx)
         except Exception as ex:
@@ -647,6 +648,69 @@ def _w_constructors(ctx):
                        {"cls": cls2.__name__, "source": type(m).__name__})
         except Exception as ex:
             ctx.count("from_mesh:raises:" + exc_kind(ex))
+
+
+def _w_shared_mapping(ctx):
+    """several bases built on ONE explicit mapping object (affine and isoparametric, every first-order class,
+    the 1-D discontinuous mesh class): the second basis equals a basis on a fresh mapping"""
+    import skfem
+    from skfem import Basis, FacetBasis
+    from skfem.mapping import MappingAffine, MappingIsoparametric
+    from .. import meshes as M
+    rng = random.Random(f"C15map:{ctx.seed}")
+    E1 = {"line": skfem.ElementLineP1, "tri": skfem.ElementTriP1, "quad": skfem.ElementQuad1,
+          "tet": skfem.ElementTetP1, "hex": skfem.ElementHex1, "wedge": skfem.ElementWedge1}
+    E2 = {"line": skfem.ElementLineP2, "tri": skfem.ElementTriP2, "quad": skfem.ElementQuad2,
+          "tet": skfem.ElementTetP2, "hex": skfem.ElementHex2, "wedge": skfem.ElementWedge1}
+    meshes_ = [(k, M.gen_first_order(rng, k)[0]) for k in ("line", "line", "tri", "quad", "tet", "hex", "wedge")]
+    try:
+        meshes_.append(("line", skfem.MeshLine1DG.periodic(skfem.MeshLine().refined(2), [0], [4])))
+    except Exception:
+        pass
+    for kind, m in meshes_:
+        if m.nelements > 30:
+            continue
+        makers = [("default", lambda m=m: m._mapping()),
+                  ("isoparametric", lambda m=m, kind=kind: MappingIsoparametric(m, E1[kind](), m.bndelem))]
+        if kind in ("line", "tri", "tet") and type(m).__name__.endswith("1"):
+            makers.append(("affine", lambda m=m: MappingAffine(m)))
+        for mname, mk in makers:
+            try:
+                mp = mk()
+            except Exception:
+                continue
+            seq = [("cell", lambda mp_: Basis(m, E2[kind](), mapping=mp_)),
+                   ("cell again", lambda mp_: Basis(m, E2[kind](), mapping=mp_)),
+                   ("cell, other element", lambda mp_: Basis(m, E1[kind](), mapping=mp_, intorder=4))]
+            if kind != "wedge" and kind != "line":
+                seq.append(("facet", lambda mp_: FacetBasis(m, E1[kind](), mapping=mp_)))
+                seq.append(("facet again", lambda mp_: FacetBasis(m, E1[kind](), mapping=mp_)))
+            seq.append(("cell, third time", lambda mp_: Basis(m, E2[kind](), mapping=mp_)))
+            for label, build in seq:
+                _check(ctx, f"{label} basis on a shared {mname} mapping object ({type(m).__name__})",
+                       "shared-mapping:" + mname,
+                       lambda: c15pool.basis_value(build(mp)), lambda: c15pool.basis_value(build(mk())),
+                       {"cls": type(m).__name__, "mapping": mname, "step": label, "p": m.p.tolist(),
+                        "t": m.t.tolist()})
+
+
+def _w_repeat(ctx):
+    """operations with internal tie-breaking / randomisation return the same result when repeated in one process
+    (no hidden generator state): adaptive refinement of tetrahedral meshes with tied longest edges and others"""
+    import skfem
+    cases = [("MeshTet().refined([3])", lambda: skfem.MeshTet().refined(np.array([3]))),
+             ("MeshTet().refined(1).refined([0, 5, 9, 17])",
+              lambda: skfem.MeshTet().refined(1).refined(np.array([0, 5, 9, 17]))),
+             ("MeshTet.init_tensor(...).refined([0, 1])",
+              lambda: skfem.MeshTet.init_tensor(np.array([0., 1.]), np.array([0., 1.]), np.array([0., 1., 2.]))
+              .refined(np.array([0, 1]))),
+             ("MeshTri().refined(1).refined([0, 3])", lambda: skfem.MeshTri().refined(1).refined(np.array([0, 3]))),
+             ("MeshTri.init_circle().smoothed()", lambda: skfem.MeshTri().refined(2).smoothed())]
+    for name, fn in cases:
+        first = c15pool.mesh_value(fn())
+        for rep in range(2):
+            _check(ctx, f"{name}: repetition {rep + 2} in the same process", "repeat",
+                   lambda: c15pool.mesh_value(fn()), lambda: first, {"expression": name})
 
 
 def _w_solvers(ctx):
